@@ -112,6 +112,11 @@ func GenNet(r *gen.Rand, class string) *Net {
 		n.Alpha = r.Range(1, 3)
 		n.K = r.Range(1, 3)
 	}
+	if class == "small" {
+		size = r.Range(4, 7)
+		n.Alpha = r.Range(2, 3)
+		n.K = r.Range(1, 4)
+	}
 	if class == "truthful" {
 		n.FilterKind, n.DataKind = "none", "none"
 		n.Truthful = true
@@ -256,7 +261,7 @@ func GenNet(r *gen.Rand, class string) *Net {
 		}
 	}
 	// Late batches.
-	if class != "truthful" && class != "tiny" {
+	if class != "truthful" && class != "tiny" && class != "small" {
 		for j := 0; j < r.Intn(4); j++ {
 			var b []types.AddrMaybeId
 			for k := 0; k < r.Range(1, 4); k++ {
